@@ -20,6 +20,7 @@ RULES = [
     ("C08.bucket", lambda c, r: lfht.rule_bucket(c, r, "C08.bucket")),
     ("C08.chain", lambda c, r: lfht.rule_chain(c, r, "C08.chain")),
     ("C08.tables", lambda c, r: lfht.rule_mm(c, r, "C08.tables")),
+    ("C08.newparams", lambda c, r: lfht.rule_newparams(c, r, "C08.newparams")),
     ("C08.rev", lambda c, r: lfht.rule_rev(c, r, "C08.rev")),
     ("C08.replace", lambda c, r: lfht.rule_replace(c, r, "C08.replace")),
     ("C08.unique", lambda c, r: lfht.rule_unique(c, r, "C08.unique")),
